@@ -287,6 +287,8 @@ inductive Op
   | fxdel (r v : Nat)
   | parse (d : Doc)
   | failsolid (m : Nat) (des : Int)
+  | failent (m : Nat) (des : Int)
+  | failside (m : Nat) (des : Int)
 
 def bind (s : St) (r h : Nat) : St :=
   { s with regs := fun r' => if r' = r then some h else s.regs r', regList := r :: s.regList }
@@ -525,6 +527,14 @@ def stepCore (c : Cfg) (s : St) : Op → St
     -- visgroup_ids converter raises before __attrs_post_init__ asks the manager; the half-built
     -- object is destroyed and `__del__` runs.
     if m < s.nmaps ∧ c.failedCtorReleases then manDiscard c s m .solid des else s
+
+  | .failent m des =>
+    -- `Entity(vmf, ent_id=des, groups=<not iterable>)` raises AFTER `self.id = ent_id.get_id(des)`:
+    -- the object owns a registered id and nothing references it (collected right away).
+    if m < s.nmaps then (allocObj s .ent m des []).1 else s
+  | .failside m des =>
+    -- `Side(vmf, planes, des, disp_power=<str>)` raises after `self.id = face_id.get_id(des)`.
+    if m < s.nmaps then (allocObj s .face m des []).1 else s
 
 /-- one operation, then reference-count collection. -/
 def step (c : Cfg) (s : St) (op : Op) : St := collect c (stepCore c s op)
